@@ -226,7 +226,7 @@ Definition compat (c1 c2 : tcfg) (b1 b2 : option btls) : bool :=
   | _, _ => false
   end.
 
-(* "0.0.0.0" and "::" are stored under the catch-all key *)
+(* "0.0.0.0" and "::" are stored (and checked for compatibility) under the catch-all key *)
 Definition key_of (h : bytes) : bytes :=
   if beq h (bs "0.0.0.0"%string) || beq h (bs "::"%string) then [] else h.
 
@@ -236,17 +236,22 @@ Inductive mkres :=
 | MkErr (cls : N)            (* 1 multiplex TLS/not TLS, 2 build error, 3 incompatible same name *)
 | MkGroup (g : amap gval).
 
+(* a nil entry is replaced by new(Config) — no host name, TLS disabled — and then treated like
+   every other config *)
+Definition nil_cfg : tcfg := mkT [] false 0 0 [] [] [] false 0 [] false.
+Definition cfg_of (o : option tcfg) : tcfg := match o with Some c => c | None => nil_cfg end.
+
 Fixpoint mk_loop (dc : list N) (bad : list bytes) (i : nat) (prev : option bool)
          (cs : list (option tcfg)) (m : amap gval) : N + amap gval :=
   match cs with
   | [] => inr m
-  | None :: r => mk_loop dc bad (S i) (Some false) r m
-  | Some c :: r =>
+  | o :: r =>
+    let c := cfg_of o in
     if match prev with Some p => negb (Bool.eqb (enabled c) p) | None => false end then inl 1
     else match build dc bad c with
          | None => inl 2
          | Some ob =>
-           if match mget (host c) m with
+           if match mget (key_of (host c)) m with
               | Some (_, c2, ob2) => negb (compat c c2 ob ob2)
               | None => false
               end then inl 3
@@ -396,6 +401,9 @@ Definition match_host (e : amap nat) (h : bytes) : option (bytes * nat) :=
   find_key e (h :: wild_cands h).
 
 Definition fallback_hosts : list bytes := [bs "0.0.0.0"%string; bs "::"%string; []].
+(* the wildcard candidates matchHost derives from the fallback hosts: "*.0.0.0", "*.*.0.0",
+   "*.*.*.0", "*.*.*.*" and "*" — a site with such a name answers for every unmatched host *)
+Definition fallback_star_names : list bytes := flat_map wild_cands fallback_hosts.
 
 Fixpoint first_match (e : amap nat) (hs : list bytes) : option (bytes * nat) :=
   match hs with
@@ -415,19 +423,34 @@ Definition req_hostname (rhost : bytes) : bytes := host_only rhost.
 (* the host the vhost trie is searched for: Match(hostname + "/") *)
 Definition route_host (rhost : bytes) : bytes := vhost_key (req_hostname rhost ++ [SLASH]).
 
-Definition strict_fail (c : tcfg) (tls : option bytes) (hostname : bytes) : bool :=
-  match tls with
-  | Some sni => demands c && negb (beq (to_lower sni) (to_lower hostname))
+(* Server.handshakeWithoutSNIElsewhere: a handshake without SNI is governed by the default server
+   name or else by a site named by the local IP address of the connection before any catch-all
+   config is considered (dflt = certmagic.Default.DefaultServerName, conn = the LocalAddr of the
+   connection as found in the request context) *)
+Definition sniless_elsewhere (sites : list site) (dflt : bytes) (conn : option bytes) : bool :=
+  negb (is_nil (trim_space dflt)) ||
+  match conn with
+  | Some a => existsb (fun s => beq (host (s_tls s)) (host_only a)) sites
   | None => false
   end.
 
-Definition serve (sites : list site) (tls : option bytes) (rhost : bytes) : outcome :=
+(* the SNI value is compared to the host name the site was looked up by (routedHost); a
+   connection without SNI must in addition not have been governed elsewhere *)
+Definition strict_fail (c : tcfg) (tls : option bytes) (routed : bytes) (elsewhere : bool) : bool :=
+  match tls with
+  | Some sni => demands c && (negb (beq (to_lower sni) routed) || (is_nil sni && elsewhere))
+  | None => false
+  end.
+
+Definition serve (sites : list site) (dflt : bytes) (conn : option bytes) (tls : option bytes)
+           (rhost : bytes) : outcome :=
   match vmatch (vhosts sites) (route_host rhost) with
   | None => NoSite
   | Some (_, i) =>
       match nth_error sites i with
       | None => NoSite
-      | Some s => if strict_fail (s_tls s) tls (req_hostname rhost) then Forbidden i else Served i
+      | Some s => if strict_fail (s_tls s) tls (route_host rhost) (sniless_elsewhere sites dflt conn)
+                  then Forbidden i else Served i
       end
   end.
 
@@ -583,18 +606,23 @@ Definition lookup_spec (dc : list N) (bad : list bytes) (cfgs : list (option tcf
       end
   end.
 
+(* what two sites stored under one key must agree on (the compatibility assert demands more) *)
+Definition policy_compatible (x y : tcfg) : bool :=
+  (pmin x =? pmin y) && (pmax x =? pmax y) && (cauth x =? cauth y) &&
+  ((cauth x =? 0) || listB_beq (ccerts x) (ccerts y)).
+
 (* policy equality that matters for the client-certificate clause *)
 Definition same_policy (x y : tcfg) : bool :=
   (cauth x =? cauth y) && listB_beq (ccerts x) (ccerts y).
 
-Definition serve_spec (sites : list site) (tls : option bytes) (rhost : bytes)
-           (obs_gov : lobs) (obs : sobs) : bool :=
+Definition serve_spec (sites : list site) (dflt : bytes) (conn : option bytes) (tls : option bytes)
+           (rhost : bytes) (obs_gov : lobs) (obs : sobs) : bool :=
   match obs with
   | SServed v =>
       match nth_error sites v, tls with
       | Some s, Some sni =>
           if demands (s_tls s) then
-            beq (to_lower sni) (to_lower (req_hostname rhost)) &&
+            beq (to_lower sni) (route_host rhost) &&
             match obs_gov with
             | LGov g _ => match nth_error sites g with
                           | Some sg => same_policy (s_tls sg) (s_tls s)
@@ -606,9 +634,18 @@ Definition serve_spec (sites : list site) (tls : option bytes) (rhost : bytes)
       | None, _ => false
       end
   | SForbidden =>
-      (* refused only for a name mismatch on a TLS connection *)
+      (* refused only on a TLS connection: for a name mismatch (SNI against the host name the
+         request is routed by), or, the handshake having carried no SNI, when a default server
+         name is set or a site is named by the local address (such a handshake is not tied to
+         the catch-all site) *)
       match tls with
-      | Some sni => negb (beq (to_lower sni) (to_lower (req_hostname rhost)))
+      | Some sni => negb (beq (to_lower sni) (route_host rhost)) ||
+                    (is_nil sni &&
+                     (negb (is_nil (trim_space dflt)) ||
+                      match conn with
+                      | Some a => existsb (fun s => beq (host (s_tls s)) (host_only a)) sites
+                      | None => false
+                      end))
       | None => false
       end
   | SNoSite => true
@@ -705,12 +742,12 @@ Definition judge (c : case) : N :=
         lookup_agree ml obs_gov &&
         match obs_gov with
         | LErr _ => true
-        | _ => sobs_beq (sobs_of (serve sites tls rhost)) obs
+        | _ => sobs_beq (sobs_of (serve sites dflt conn tls rhost)) obs
         end in
       let spec :=
         match obs_gov with
         | LErr _ => lookup_spec dc [] cfgs dflt conn sni obs_gov
-        | _ => lookup_spec dc [] cfgs dflt conn sni obs_gov && serve_spec sites tls rhost obs_gov obs
+        | _ => lookup_spec dc [] cfgs dflt conn sni obs_gov && serve_spec sites dflt conn tls rhost obs_gov obs
         end in
       verdict agree spec
   | CHandshake aesni raw conn sni cmin cmax rhost obs_start obs_version obs_asked obs =>
@@ -720,10 +757,37 @@ Definition judge (c : case) : N :=
       | Some sites =>
           let cfgs := map (fun s => Some (s_tls s)) sites in
           let ml := model_lookup dc [] cfgs [] (Some conn) sni in
+          (* spec, from the observations alone.  On the wire: version inside the range of a most
+             specific site, certificate asked iff that site's policy says so, a site that demands
+             certificates only answers on a connection where one was asked for; an instance that
+             started has no TLS/plaintext mix and no two sites under one key with different
+             protocol ranges or client-certificate policies *)
+          let cs := some_cfgs cfgs in
+          let rk c := srank [] (Some conn) sni (key_of (host c)) in
+          let most_specific c := forallb (fun c' => opt_le (rk c) (rk c')) cs in
+          let spec_started :=
+            negb (mixed cfgs) &&
+            forallb (fun c => forallb (fun c' => negb (beq (key_of (host c)) (key_of (host c'))) ||
+                                                 policy_compatible c c') cs) cs &&
+            ((obs_version =? 0) ||
+             ((cmin <=? obs_version) && (obs_version <=? cmax) &&
+              existsb (fun c => most_specific c && (pmin c <=? obs_version) &&
+                                (obs_version <=? pmax c) &&
+                                Bool.eqb obs_asked (negb (cauth c =? 0))) cs)) &&
+            match obs with
+            | SServed i => match nth_error sites i with
+                           | Some s => negb (demands (s_tls s)) || obs_asked
+                           | None => false end
+            | _ => true
+            end in
+          let spec :=
+            if obs_start =? 0 then spec_started
+            else if obs_start =? 8 then negb (mixed cfgs)                 (* plaintext listener *)
+            else lookup_spec dc [] cfgs [] (Some conn) sni (LErr obs_start) in
           match fst ml with
-          | Some (LErr e) => verdict (obs_start =? e) (lookup_spec dc [] cfgs [] (Some conn) sni (LErr obs_start))
-          | Some LNil => verdict (obs_start =? 8) (negb (mixed cfgs))     (* plaintext listener *)
-          | Some (LNone) => verdict false true
+          | Some (LErr e) => verdict (obs_start =? e) spec
+          | Some LNil => verdict (obs_start =? 8) spec
+          | Some (LNone) => verdict false spec
           | fb =>
               (* the governing config: the one found, or any config of the group on failover *)
               let cands := match fb with
@@ -735,28 +799,9 @@ Definition judge (c : case) : N :=
                          | Some v => if version_feasible b v then v else 0
                          | None => 0 end in
                 let asked := negb (v =? 0) && negb (b_cauth b =? 0) in
-                let out := if v =? 0 then SNoSite else sobs_of (serve sites (Some sni) rhost) in
+                let out := if v =? 0 then SNoSite else sobs_of (serve sites [] (Some conn) (Some sni) rhost) in
                 (obs_version =? v) && Bool.eqb obs_asked asked && sobs_beq out obs in
               let agree := (obs_start =? 0) && existsb predicted cands in
-              (* spec on the wire: version inside the range of a most specific site, certificate
-                 asked iff that site's policy says so, and a site that demands certificates only
-                 answers on a connection where one was asked for *)
-              let cs := some_cfgs cfgs in
-              let rk c := srank [] (Some conn) sni (key_of (host c)) in
-              let most_specific c := forallb (fun c' => opt_le (rk c) (rk c')) cs in
-              let spec :=
-                (obs_start =? 0) && negb (mixed cfgs) &&
-                ((obs_version =? 0) ||
-                 ((cmin <=? obs_version) && (obs_version <=? cmax) &&
-                  existsb (fun c => most_specific c && (pmin c <=? obs_version) &&
-                                    (obs_version <=? pmax c) &&
-                                    Bool.eqb obs_asked (negb (cauth c =? 0))) cs)) &&
-                match obs with
-                | SServed i => match nth_error sites i with
-                               | Some s => negb (demands (s_tls s)) || obs_asked
-                               | None => false end
-                | _ => true
-                end in
               verdict agree spec
           end
       end
@@ -769,7 +814,7 @@ Definition served_under_foreign_policy (sites : list site) (dflt : bytes) (conn 
            (sni rhost : bytes) : Prop :=
   exists g v s k i c b,
     make_tls_config (default_ciphers true) [] (map (fun s => Some (s_tls s)) sites) = MkGroup g /\
-    serve sites (Some sni) rhost = Served v /\ nth_error sites v = Some s /\ demands (s_tls s) = true /\
+    serve sites dflt conn (Some sni) rhost = Served v /\ nth_error sites v = Some s /\ demands (s_tls s) = true /\
     get_config g dflt conn sni = Found k (i, c, Some b) /\ b_cauth b <> cauth (s_tls s).
 Definition open_site (a h : string) : site := mkS (bs a) (mkT (bs h) true TLS12 TLS13 [] [] [] true 0 [] false).
 Definition mtls_site (a h : string) : site := mkS (bs a) (mkT (bs h) true TLS12 TLS13 [] [] [] true 2 [] false).
